@@ -32,7 +32,7 @@ def check(ctx):
     ur = make_user_reaching(m)
     run = rr.run
     # ---------------------------------------------------------------- P1
-    ws = [n for n in run.own_nodes() if isinstance(n, ast.With) and any(norm(it.context_expr) == "progress_observer" for it in n.items)]
+    ws = [n for n in run.own_nodes() if isinstance(n, ast.With) and any(norm(it.context_expr) == rr.observer_var for it in n.items)]
     ok = len(ws) == 1
     ctx.ob("C15.P1", f"{run.short}/one-with", ok, loc(run), "one `with progress_observer:`" if ok else f"{len(ws)} with-statements on the observer")
     notifying = {f for f in m.funcs.values() if not f.module.name.startswith("uberjob.progress") and notify_calls(f)}
@@ -45,7 +45,7 @@ def check(ctx):
                 ins = inside(run.module, c, w)
                 ctx.ob("C15.P1", f"{run.short}/inside-with", ins, loc(run, c), "phase runs inside the observer's with" if ins else
                        "a call that produces notifications runs outside the observer's with (notifications before __enter__ or after __exit__)", norm(c)[:80])
-        obs_bind = [b for b in run.bindings.get("progress_observer", [])]
+        obs_bind = [b for b in run.bindings.get(rr.observer_var, [])]
         ok1 = len(obs_bind) == 1 and obs_bind[0][0] == "assign" and norm(obs_bind[0][1]).endswith(".observer()")
         ctx.ob("C15.P1", f"{run.short}/one-observer", ok1, loc(run), "one observer object per run, created once" if ok1 else "observer is rebound in run")
     for f in m.funcs.values():
@@ -197,7 +197,14 @@ def check(ctx):
         ctx.ob("C15.P4", f"{tot.short}~{cb.short}", ok, loc(tot), why)
         cnt = [c for c in tot.own_calls() if "Counter" in norm(c.func)]
         inc = notify_calls(tot, "increment_total")[0]
-        okc = bool(cnt) and norm(arg(inc, None, "amount")) in ("count",) and any(isinstance(n, ast.For) and ".items()" in norm(n.iter) for n in tot.own_nodes())
+        okc = False
+        for n in tot.own_nodes():
+            if isinstance(n, ast.For) and isinstance(n.iter, ast.Call) and isinstance(n.iter.func, ast.Attribute) and n.iter.func.attr == "items" \
+                    and isinstance(n.iter.func.value, ast.Name) and isinstance(n.target, ast.Tuple) and len(n.target.elts) == 2:
+                cb_ = [b for b in tot.bindings.get(n.iter.func.value.id, []) if b[0] == "assign"]
+                from_counter = len(cb_) == 1 and isinstance(cb_[0][1], ast.Call) and "Counter" in norm(cb_[0][1].func) and gens and cb_[0][1].args and cb_[0][1].args[0] is gens[0]
+                okc = bool(from_counter) and any(x is inc for x in ast.walk(n)) and norm(arg(inc, None, "scope")) == norm(n.target.elts[0]) \
+                    and norm(arg(inc, None, "amount")) == norm(n.target.elts[1])
         ctx.ob("C15.P4", f"{tot.short}/amount", okc, loc(tot), "amount = multiplicity of the scope among the Call nodes" if okc else "announced amount is not the multiplicity of the scope")
     ctx.floor("C15.P3", "running/finished brackets", n_br, 2)
     from .extra import rule_error_path_total
@@ -254,7 +261,8 @@ def check(ctx):
                 continue
             idx = callee.pos_params.index(pn[0]) if pn[0] in callee.pos_params else None
             a = arg(c, idx, pn[0])
-            ok = a is not None and is_name(a, "progress_observer")
+            src_name = rr.observer_var if caller is run else ([p_ for p_ in caller.params if "observer" in p_] or ["progress_observer"])[0]
+            ok = a is not None and is_name(a, src_name)
             ctx.ob("C15.P7", f"{caller.short} -> {callee.short}/observer-forwarded", ok, loc(caller, c),
                    "observer forwarded" if ok else "the run's observer is not passed on: this phase reports to nobody", norm(c)[:80])
     for f in (rr.run_physical, rr.prep_run, rr.apply, rr.stale):
